@@ -1,6 +1,6 @@
 import Mutagen.Driver.Util
 import Mutagen.Driver.Tree
-import Mutagen.Model.Lifecycle
+import Mutagen.Model.SyncCycle
 /-!
 Shared by the C11 and C18 model drivers: rendering of cycle outcomes and
 events, and the scripted endpoints of `harness/sessx` (every transition is
